@@ -7,6 +7,10 @@ Real code (entered through the public API a user calls to checkpoint):
   chains of 1..5 named transforms (`.chain(TreeTransform(name=...)...)`, one runner each), an aggregate at any subset of
   the stages: additionally `it.agg_state`, `StopIteration.value` (AggregateResult) and `it.agg_result` after every op
   (harness/lib_resume_chain.py; model lean/MlModel/Model/ResumeChain.lean, wire name "resumechain")
+  pipelines whose aggregation is SLICED (round 10): 1-2 named transforms, stacked aggregates, all five slicer kinds of C02, the
+  aggregation state a dict with dynamic per-slice keys; `it.agg_result` per output key x slice key and the keys of `it.agg_state`
+  after the history vs the uninterrupted run (harness/lib_resume_sliced.py; model lean/MlModel/Model/ResumeSliced.lean, wire name
+  "resumesliced")
 Model: lean/MlModel/Model/Resume.lean, ResumeChain.lean; theorems: lean/MlModel/Properties/C10.lean; witnesses of the
 open findings and of the seeded regression C10-m3: lean/MlModel/Witness/C10.lean.
 
@@ -20,6 +24,7 @@ import itertools
 from harness.core import deep_close
 from harness import lib_resume as L
 from harness import lib_resume_chain as LC
+from harness import lib_resume_sliced as LS
 
 PID = 'C10'
 TITLE = 'Checkpoint and resume continue exactly where iteration stopped'
@@ -38,6 +43,9 @@ ASSUMPTIONS = [
     'shard offsets do not exceed the shard length and shard_index < num_shards (C09 covers shard itself)',
     'pipelines of one runner or chains of 1-5 named transforms (one runner each, row-wise: map / filter) with an aggregate '
     'at any subset of the stages; aggregate state copied by value',
+    'sliced aggregations: the pipelines of the C02 model (stacked aggregates, five slicer kinds, filter / replace masks) over an un-sharded '
+    'SequenceDataSource of dict batches, num_threads = 0, chains that are the identity or a batch filter; cases whose UNINTERRUPTED run raises are '
+    "C02's subject (outside the C10 oracle)",
 ]
 RULE = ('corpus (witnesses of F1/F12/F16 and of the restore-twice aliasing), then small-exhaustive second-generation '
         'restores (every pair of cut points of sources of <= 7 elements under 9 shard chains, both source kinds), then '
@@ -48,6 +56,11 @@ RULE = ('corpus (witnesses of F1/F12/F16 and of the restore-twice aliasing), the
         'shapes: one restore, second generation, restore-then-checkpoint-immediately, restore twice from one state, '
         'checkpoint-continue-restore, third generation; then random chains with filters at random stages, three aggregate '
         'kinds, random histories; every promised arm is enforced: exit 2 if a run misses one), '
+        'pipelines with SLICED aggregations (round 10; harness/lib_resume_sliced.py): six slicer shapes (single, cross, within, within-cross, fan-out fn, '
+        'slice_mask_fn) x six history shapes x every cut position 0..n+1 over 4-batch streams, every fourth with a second named transform that has its '
+        'own sliced aggregate, every fifth with a batch filter, then 350 random C02 pipelines (1-3 stacked aggregates, 0-3 slicers, filter / replace, both '
+        'worlds) as 1-2 named transforms under random histories; observed: delivered batches, agg_result per output key x slice key after every op, '
+        'agg_state keys; 33 promised arms enforced (each slicer kind restored after >= 1 aggregated batch, ...), '
         'and ~8% rejected configurations (num_shards = 0); non-trivial = at least one restore that follows '
         'a delivered element while elements remain; distinct = distinct canonical case JSON')
 
@@ -192,6 +205,9 @@ def gen_cases(ctx):
     yield case
   # chains of named transforms of any length, aggregates at any subset of the stages
   for c in chain_cases(ctx):
+    yield c
+  # pipelines whose aggregation is sliced: the aggregation state has dynamic keys
+  for c in LS.gen_cases(ctx, rand_ops):
     yield c
   # rejected configurations
   for _ in range(60 if quick else 1500):
@@ -396,6 +412,8 @@ def check_chain_coverage(ctx):
 
 
 def run_impl(case):
+  if case.get('sliced'):
+    return LS.run_history(case)
   if is_chain(case):
     return LC.run_chain_history(case)
   return L.run_history(case)
@@ -415,6 +433,8 @@ def _req(case, ops):
 
 
 def model_requests(case):
+  if case.get('sliced'):
+    return LS.model_requests(case)
   if is_chain(case):
     return [chain_req(case, case['ops']), chain_req(case, [])]
   if case.get('threads', 0):
@@ -423,6 +443,8 @@ def model_requests(case):
 
 
 def model_obs(case, resps):
+  if case.get('sliced'):
+    return LS.model_obs(case, resps)
   if is_chain(case):
     return chain_model_obs(case, resps)
   has_agg = bool(case.get('pipe') and case['pipe'].get('agg'))
@@ -444,6 +466,8 @@ def model_obs(case, resps):
 
 
 def compare(impl, model):
+  if 'full_err' in impl:
+    return LS.compare(impl, model)
   if 'snaps' in impl or 'snaps' in model:
     return chain_compare(impl, model)
   if impl.get('err') or model.get('err'):
@@ -485,6 +509,8 @@ def oracle(case, obs):
   """The property on the real iterators: everything delivered on the surviving timeline, across all generations,
   is exactly what the uninterrupted run delivers (nothing skipped, nothing repeated; in order when sequential),
   and the final aggregate equals the uninterrupted run's."""
+  if case.get('sliced'):
+    return LS.oracle(case, obs)
   if case.get('malformed'):
     return None if obs['err'] is not None else 'a source with num_shards = 0 was accepted'
   if obs['err'] is not None:
@@ -519,6 +545,8 @@ def _has_restore(case):
 
 
 def nontrivial(case, obs):
+  if case.get('sliced'):
+    return not obs.get('err') and 'sliced_ckpt_holds_slice_entries' in LS.features(case)
   if obs.get('err') or not obs.get('full'):
     return False
   seen, i = 0, 0
@@ -532,6 +560,8 @@ def nontrivial(case, obs):
 
 
 def finding(case, what):
+  if case.get('sliced'):
+    return None
   # the two open findings only ever *lose* rows; anything delivered twice is a different defect
   if not isinstance(what, str) or not what.startswith('skipped') or 'delivered twice' in what:
     return None
@@ -546,6 +576,16 @@ def finding(case, what):
 
 
 def neighbours(case, rng):
+  if case.get('sliced'):
+    for i in range(len(case['ops'])):
+      c = copy.deepcopy(case)
+      del c['ops'][i]
+      yield c
+    for _ in range(200):
+      c = copy.deepcopy(case)
+      c['ops'] = rand_ops(rng, len(case['batches']), 6)
+      yield c
+    return
   for i in range(len(case['ops'])):
     c = copy.deepcopy(case)
     del c['ops'][i]
@@ -561,7 +601,47 @@ def neighbours(case, rng):
     yield c
 
 
+def shrink_sliced(case, fails):
+  cur = copy.deepcopy(case)
+  changed = True
+  while changed:
+    changed = False
+    cands = []
+    for i in range(len(cur['ops'])):
+      c = copy.deepcopy(cur)
+      del c['ops'][i]
+      cands.append(c)
+    if len(cur['stages']) > 1:
+      for i in range(len(cur['stages'])):
+        c = copy.deepcopy(cur)
+        del c['stages'][i]
+        cands.append(c)
+    for si, st in enumerate(cur['stages']):
+      for field in ('slicers', 'aggs'):
+        for i in range(len(st[field])):
+          if field == 'aggs' and len(st['aggs']) == 1:
+            continue
+          c = copy.deepcopy(cur)
+          del c['stages'][si][field][i]
+          cands.append(c)
+      if st.get('drop'):
+        c = copy.deepcopy(cur)
+        c['stages'][si]['drop'] = None
+        cands.append(c)
+    for i in range(len(cur['batches'])):
+      c = copy.deepcopy(cur)
+      del c['batches'][i]
+      cands.append(c)
+    for c in cands:
+      if fails(c):
+        cur, changed = c, True
+        break
+  return cur
+
+
 def shrink(case, fails):
+  if case.get('sliced'):
+    return shrink_sliced(case, fails)
   cur = case
   changed = True
   while changed:
@@ -691,6 +771,7 @@ def extra(ctx):
   """Tie of the threaded transition system: the schedule observed on the real threads is replayed on the model,
   which must then deliver / lose / aggregate exactly what the real run did."""
   check_chain_coverage(ctx)
+  LS.check_coverage(ctx)
   lean = ctx.lean
   cases = list(threaded_cases(ctx))
   runs = []
